@@ -334,7 +334,7 @@ theorem setMeta_probe {m m' : Meta} {k : String} {v : Val} (hk : k ≠ metaProbe
   by_cases h1 : k = metaTraceID
   · rw [if_pos h1] at h
     cases v <;> simp at h
-    subst h; rfl
+    subst h; split <;> rfl
   · rw [if_neg h1, if_neg hk] at h
     by_cases h3 : k = metaRoot
     · rw [if_pos h3] at h
@@ -367,17 +367,16 @@ theorem setMeta_tid {m m' : Meta} {k : String} {v : Val} (hk : k ≠ metaTraceID
         subst h; rfl
       · rw [if_neg h4] at h; simp at h
 
-theorem step_probe (nm : Names) (m : Meta) (kv : String × Val) (hk : kv.1 ≠ metaProbe) :
-    (stepMsgp nm m kv).probe = m.probe ∧ (stepMap nm m kv).probe = m.probe := by
+theorem step_probe (nm : Names) (st : Scan) (m : Meta) (kv : String × Val) (hk : kv.1 ≠ metaProbe) :
+    (stepMsgp nm st kv).m.probe = st.m.probe ∧ (stepMap nm m kv).probe = m.probe := by
   constructor
   · unfold stepMsgp
-    cases hs : setMeta m kv.1 kv.2 with
+    cases hs : setMeta st.m kv.1 kv.2 with
     | some m' => exact setMeta_probe hk hs
     | none =>
       cases hv : kv.2 <;> simp only []
-      rename_i s
       split
-      · rfl
+      · split <;> rfl
       · split
         · split <;> rfl
         · rfl
@@ -389,35 +388,53 @@ theorem step_probe (nm : Names) (m : Meta) (kv : String × Val) (hk : kv.1 ≠ m
     · split
       · cases hv : kv.2 <;> simp only []
         split <;> rfl
-      · split
-        · cases hv : kv.2 <;> simp only []
-          split <;> rfl
-        · rfl
+      · rfl
 
-theorem step_tid (nm : Names) (m : Meta) (kv : String × Val) (hk : kv.1 ≠ metaTraceID)
+theorem step_tid_msgp (nm : Names) (st : Scan) (kv : String × Val) (hk : kv.1 ≠ metaTraceID)
     (hn : kv.1 ∉ nm.trace) :
-    (stepMsgp nm m kv).tid = m.tid ∧ (stepMap nm m kv).tid = m.tid := by
-  constructor
-  · unfold stepMsgp
-    cases hs : setMeta m kv.1 kv.2 with
+    (stepMsgp nm st kv).m.tid = st.m.tid ∧ (stepMsgp nm st kv).cand = st.cand := by
+  unfold stepMsgp
+  cases hs : setMeta st.m kv.1 kv.2 with
+  | some m' => exact ⟨setMeta_tid hk hs, rfl⟩
+  | none =>
+    cases hv : kv.2 with
+    | str s =>
+      simp only [hn, false_and, if_false]
+      split
+      · split <;> exact ⟨rfl, rfl⟩
+      · exact ⟨rfl, rfl⟩
+    | _ => exact ⟨rfl, rfl⟩
+
+theorem step_tid_map (nm : Names) (m : Meta) (kv : String × Val) (hk : kv.1 ≠ metaTraceID) :
+    (stepMap nm m kv).tid = m.tid := by
+  unfold stepMap
+  split
+  · cases hs : setMeta m kv.1 kv.2 with
     | some m' => exact setMeta_tid hk hs
-    | none =>
-      cases hv : kv.2 <;> simp only []
-      rename_i s
-      simp only [hn, and_false, if_false]
-      split
-      · split <;> rfl
-      · rfl
-  · unfold stepMap
-    split
-    · cases hs : setMeta m kv.1 kv.2 with
-      | some m' => exact setMeta_tid hk hs
-      | none => rfl
-    · simp only [hn, and_false, if_false]
-      split
-      · cases hv : kv.2 <;> simp only []
-        split <;> rfl
-      · rfl
+    | none => rfl
+  · split
+    · cases hv : kv.2 <;> simp only []
+      split <;> rfl
+    · rfl
+
+theorem firstConfigured_none (fs : Fields) (names : List String)
+    (h : ∀ kv ∈ fs, kv.1 ∉ names) : firstConfigured fs names = "" := by
+  induction names with
+  | nil => rfl
+  | cons n t ih =>
+    have hl : lookupStr fs n = "" := by
+      unfold lookupStr
+      have : fs.find? (fun kv => kv.1 == n) = none := by
+        rw [List.find?_eq_none]
+        intro kv hkv
+        have := h kv hkv
+        simp only [List.mem_cons, not_or] at this
+        simpa using this.1
+      rw [this]
+    unfold firstConfigured
+    rw [hl]
+    simp only [ne_eq, not_true_eq_false, if_false]
+    exact ih (fun kv hkv hm => h kv hkv (List.mem_cons_of_mem _ hm))
 
 theorem foldl_inv {α β : Type} (f : β → α → β) (P : β → Prop) (l : List α) (b : β)
     (hb : P b) (hstep : ∀ b a, a ∈ l → P b → P (f b a)) : P (l.foldl f b) := by
@@ -431,27 +448,61 @@ theorem foldl_inv {α β : Type} (f : β → α → β) (P : β → Prop) (l : L
 (so it is never discarded by the probe rule), under either payload encoding. -/
 theorem not_probe_without_probe_field (enc : Enc) (nm : Names) (fs : Fields)
     (h : ∀ kv ∈ fs, kv.1 ≠ metaProbe) : (extract enc nm fs).probe = none := by
+  have hmap : (fs.foldl (stepMap nm) meta0).probe = none :=
+    foldl_inv _ (fun m => m.probe = none) fs meta0 rfl
+      (fun m kv hkv hm => ((step_probe nm ⟨m, "", 0⟩ m kv (h kv hkv)).2).trans hm)
+  have hmsgp : (fs.foldl (stepMsgp nm) { m := meta0, cand := "", idx := nm.trace.length }).m.probe = none :=
+    foldl_inv _ (fun st => st.m.probe = none) fs _ rfl
+      (fun st kv hkv hm => ((step_probe nm st st.m kv (h kv hkv)).1).trans hm)
   unfold extract
-  cases enc
-  · exact foldl_inv _ (fun m => m.probe = none) fs meta0 rfl
-      (fun m kv hkv hm => ((step_probe nm m kv (h kv hkv)).2).trans hm)
-  · exact foldl_inv _ (fun m => m.probe = none) fs meta0 rfl
-      (fun m kv hkv hm => ((step_probe nm m kv (h kv hkv)).1).trans hm)
-  · exact foldl_inv _ (fun m => m.probe = none) fs meta0 rfl
-      (fun m kv hkv hm => ((step_probe nm m kv (h kv hkv)).1).trans hm)
+  cases enc <;> simp only [] <;> split <;> first | exact hmap | exact hmsgp
 
 /-- An event with no field named `meta.trace_id` or one of the configured trace-id field names
 has no trace id (so a well-formed non-probe one goes upstream unsampled). -/
 theorem no_trace_id_without_carrier (enc : Enc) (nm : Names) (fs : Fields)
     (h : ∀ kv ∈ fs, kv.1 ≠ metaTraceID ∧ kv.1 ∉ nm.trace) : (extract enc nm fs).tid = "" := by
+  have hmap : (fs.foldl (stepMap nm) meta0).tid = "" :=
+    foldl_inv _ (fun m => m.tid = "") fs meta0 rfl
+      (fun m kv hkv hm => (step_tid_map nm m kv (h kv hkv).1).trans hm)
+  have hmsgp : (fs.foldl (stepMsgp nm) { m := meta0, cand := "", idx := nm.trace.length }).m.tid = "" ∧
+      (fs.foldl (stepMsgp nm) { m := meta0, cand := "", idx := nm.trace.length }).cand = "" :=
+    foldl_inv _ (fun st => st.m.tid = "" ∧ st.cand = "") fs _ ⟨rfl, rfl⟩
+      (fun st kv hkv hm =>
+        have hs := step_tid_msgp nm st kv (h kv hkv).1 (h kv hkv).2
+        ⟨hs.1.trans hm.1, hs.2.trans hm.2⟩)
+  have hfc := firstConfigured_none fs nm.trace (fun kv hkv => (h kv hkv).2)
   unfold extract
-  cases enc
-  · exact foldl_inv _ (fun m => m.tid = "") fs meta0 rfl
-      (fun m kv hkv hm => ((step_tid nm m kv (h kv hkv).1 (h kv hkv).2).2).trans hm)
-  · exact foldl_inv _ (fun m => m.tid = "") fs meta0 rfl
-      (fun m kv hkv hm => ((step_tid nm m kv (h kv hkv).1 (h kv hkv).2).1).trans hm)
-  · exact foldl_inv _ (fun m => m.tid = "") fs meta0 rfl
-      (fun m kv hkv hm => ((step_tid nm m kv (h kv hkv).1 (h kv hkv).2).1).trans hm)
+  cases enc <;> simp only []
+  · rw [if_pos hmap]; exact hfc
+  · rw [if_pos hmsgp.1]; exact hmsgp.2
+  · rw [if_pos hmsgp.1]; exact hmsgp.2
+
+/-- A non-empty `meta.trace_id` is the trace id, whatever else the event carries and wherever it
+stands (last one wins when repeated); stated for the event's last such field. -/
+theorem meta_trace_id_wins (nm : Names) (fs₁ fs₂ : Fields) (s : String) (hs : s ≠ "")
+    (h₂ : ∀ kv ∈ fs₂, kv.1 ≠ metaTraceID) :
+    (extract .msgp nm (fs₁ ++ (metaTraceID, .str s) :: fs₂)).tid = s := by
+  unfold extract
+  simp only [List.foldl_append, List.foldl_cons]
+  generalize fs₁.foldl (stepMsgp nm) { m := meta0, cand := "", idx := nm.trace.length } = st0
+  have h1 : (stepMsgp nm st0 (metaTraceID, .str s)).m.tid = s := by
+    simp [stepMsgp, setMeta, hs]
+  generalize stepMsgp nm st0 (metaTraceID, .str s) = st1 at h1
+  have hinv : (fs₂.foldl (stepMsgp nm) st1).m.tid = s :=
+    foldl_inv _ (fun st => st.m.tid = s) fs₂ st1 h1 (fun st kv hkv hm => by
+      have hk := h₂ kv hkv
+      unfold stepMsgp
+      cases hsm : setMeta st.m kv.1 kv.2 with
+      | some m' => exact (setMeta_tid hk hsm).trans hm
+      | none =>
+        cases hv : kv.2 <;> simp only [] <;> try exact hm
+        split
+        · split <;> exact hm
+        · split
+          · split <;> exact hm
+          · exact hm)
+  rw [if_neg (by rw [hinv]; exact hs)]
+  exact hinv
 
 /-! ## The dataset name survives a listener hop -/
 
@@ -574,8 +625,13 @@ example : route (evOf .msgp [("trace.trace_id", .str "t1")]) (ctx0 .incoming .ke
     = .stressKeep (some "B") := by decide
 example : route (evOf .msgp [("trace.trace_id", .int 5)]) (ctx0 .incoming .drop false false)
     = .upstreamUnsampled := by decide
-example : route (evOf .msgp [("meta.trace_id", .str ""), ("traceId", .str "t0")]) (ctx0 .incoming .drop false false)
+example : route (evOf .msgp [("traceId", .str "t0"), ("meta.trace_id", .str "")]) (ctx0 .incoming .drop false false)
     = .stressDrop := by decide
+-- the lowest configured index wins, not the wire order (nm0: trace.trace_id before traceId)
+example : route (evOf .msgp [("traceId", .str "t1"), ("trace.trace_id", .str "t0")]) (ctx0 .incoming .off false false)
+    = .collectorIncoming := by decide
+example : route (evOf .map [("traceId", .str "t1"), ("trace.trace_id", .str "")]) (ctx0 .incoming .off false false)
+    = .peerForward "B" := by decide
 example : (process (evOf .msgp [("traceId", .str "t1"), ("meta.trace_id", .int 2), ("name", .int 3)])
     (ctx0 .incoming .off false false)).calls
     = [⟨.peer, true, ⟨"B", "K", "D", "E", 7, "1.5", ⟨"t1", none, some true, none⟩,
